@@ -574,3 +574,41 @@ func TestC07PatchOperatorKeys(t *testing.T) {
 		t.Error(msg)
 	}
 }
+
+// TestC06Excluded is C06's "excluded fields are never reported": the decode-missing mode of the exclusion check, run under
+// C06 - required fields are removed from a document that is clean for a generated spec, and the missing-required-fields
+// error must list exactly the absent required fields the spec does not exclude (a field below a spec path's inner
+// segments is not excluded by it).
+func TestC06Excluded(t *testing.T) {
+	g := &aval.Gen{S: S, MaxDepth: 4, PlainKeys: true}
+	rec := stats.For("C06")
+	if c, ok := hx.Replay[exclCase]("C06", "excluded"); ok {
+		if msg, _ := checkExclusion(rec, c); msg != "" {
+			rec.Violation("excluded", msg, c)
+			t.Fatal(msg)
+		}
+		return
+	} else if hx.Replaying() {
+		t.Skip()
+	}
+	rapid.Check(t, func(rt *rapid.T) {
+		var c exclCase
+		ty := drawType(rt, records)
+		c.Mode = "decode-missing"
+		c.Format = rapid.SampledFrom([]string{"json", "header", "any"}).Draw(rt, "fmt")
+		c.Wrap = "none"
+		c.Drop = rapid.SliceOfN(rapid.IntRange(0, 1000), 1, 3).Draw(rt, "drop")
+		v := g.Value(rt, ty, 0)
+		c.valCase = valCase{CorpusSeed: corpusSeed, Type: ty.String(), Format: c.Format, Value: v}
+		c.Spec = genSpec(rt, ty, v)
+		msg, known := checkExclusion(rec, c)
+		if known != "" {
+			rec.Known(known, kf.What(known), c)
+			return
+		}
+		if msg != "" {
+			rec.Violation("excluded", msg, c)
+			rt.Fatalf("property violated (details in the replay file)")
+		}
+	})
+}
